@@ -3,3 +3,7 @@ import OlVerif.Props.C01
 #print axioms OlVerif.C01.list_keeps_all
 #print axioms OlVerif.C01.wrapper_evaluates_in_order
 #print axioms OlVerif.C01.straight_line_effects
+#print axioms OlVerif.C01.module_straightline_semantics
+#print axioms OlVerif.C01.helper_variables_are_invisible
+#print axioms OlVerif.C01.module_level_expressions_unchanged
+#print axioms OlVerif.C01.Ex.prog_runs
